@@ -73,8 +73,10 @@ def to_geojson(
     """
     return geojson.FeatureCollection(_dumpable_iterator(
         geojson.Feature(
-            # geojson rounds coordinates to 6 decimal places unless a precision is given
-            geometry=geojson.Polygon(polygon.__geo_interface__['coordinates'], precision=17),
+            # geojson rounds coordinates to `precision` decimal places, 6 by default.
+            # Ask for more places than a double can hold: a coordinate below 1 needs
+            # more than 17 of them, and rounding to that many is the identity.
+            geometry=geojson.Polygon(polygon.__geo_interface__['coordinates'], precision=50),
             properties={
                 'linear_index': i,
                 'index': dataset.ems.wind_index(i),
